@@ -24,12 +24,12 @@ Proof.
 Qed.
 
 Definition new_rsv (g : gid) (i : option nat) : pod :=
-  mkPod (rsv_name g) true 1 PhOther (Some g) [] i None None.
+  mkPod (rsv_name g) true 1 PhOther (Some g) [] i None None 0 false.
 
 (** ** What each mutating call does when it reaches the API *)
 Lemma do_create g ans st st' r :
   do_call (ACreateRsv g) ans st = (st', r) ->
-  (has_pod (rsv_name g) (others st) = true /\ st' = st /\ r = RRefused)
+  (has_pod (rsv_name g) (others st) = true /\ st' = st /\ r = RErr EExists)
   \/ (has_pod (rsv_name g) (others st) = false
       /\ st' = set_others st (others st ++ [new_rsv g None]) /\ r = RName (rsv_name g)).
 Proof.
@@ -76,12 +76,13 @@ Lemma do_patch_cond b ans st st' r :
 Proof. cbn [do_call]. intros ->. intros H; injection H as <- <-. auto. Qed.
 
 Lemma do_bind ans st st' r :
-  self_alive st = true ->
-  do_call (ABind true) ans st = (st', r) ->
+  self_alive st = true -> p_term (self st) = false ->
+  do_call (ABind true (p_uid (self st))) ans st = (st', r) ->
   (p_node (self st) = 0 /\ st' = set_self st (with_node (self st) 1) /\ r = ROk)
-  \/ (p_node (self st) <> 0 /\ st' = st /\ r = RRefused).
+  \/ (p_node (self st) <> 0 /\ st' = st /\ r = RErr EConflict).
 Proof.
-  cbn [do_call]. intros ->. destruct (p_node (self st) =? 0) eqn:E; intros H; injection H as <- <-.
+  cbn [do_call]. intros -> ->. rewrite Nat.eqb_refl. cbn [negb].
+  destruct (p_node (self st) =? 0) eqn:E; intros H; injection H as <- <-.
   - left. apply Nat.eqb_eq in E. auto.
   - right. apply Nat.eqb_neq in E. auto.
 Qed.
@@ -91,11 +92,11 @@ Lemma do_get_cm x ans st st' r :
   st' = st /\ r = match cm_get x st with Some v => RCM v | None => RNotFound end.
 Proof. cbn [do_call]. intros H; injection H as <- <-. auto. Qed.
 
-Lemma do_create_cm x ans st st' r :
+Lemma do_create_cm x u ans st st' r :
   x <> CmOther ->
-  do_call (ACreateCM x) ans st = (st', r) ->
-  (cm_get x st <> None /\ st' = st /\ r = RRefused)
-  \/ (cm_get x st = None /\ st' = cm_put x (Some (mkCM true data_empty)) st /\ r = ROk).
+  do_call (ACreateCM x u) ans st = (st', r) ->
+  (cm_get x st <> None /\ st' = st /\ r = RErr EExists)
+  \/ (cm_get x st = None /\ st' = cm_put x (Some (mkCM u data_empty)) st /\ r = ROk).
 Proof.
   cbn [do_call]. intros Hx. destruct (cm_get x st) eqn:E.
   - intros H; injection H as <- <-. left. split; [discriminate | auto].
@@ -112,7 +113,7 @@ Qed.
 Lemma do_patch_cm x owner clear sets ans st st' r :
   do_call (APatchCM x owner clear sets) ans st = (st', r) ->
   match cm_get x st with
-  | Some v => st' = cm_put x (Some (mkCM (if owner then true else cm_owned v)
+  | Some v => st' = cm_put x (Some (mkCM (match owner with Some u => u | None => cm_owner v end)
                                           (data_apply sets (if clear then data_empty else cm_data v)))) st
               /\ r = ROk
   | None => st' = st /\ r = RNotFound
@@ -144,21 +145,21 @@ Section Main.
   Variable br0 : option brst.      (* the request's status object while the attempt runs *)
   Variable mk0 : option (nat * nat).   (* the ghost marks while this part of the attempt runs *)
   Variable mke0 : option nat.
-  Notation exec := (Binder.exec faults dp ord).
-  Notation step := (Binder.step faults dp).
+  Notation exec := (Binder.exec faults no_env dp ord).
+  Notation step := (Binder.step faults no_env dp).
 
   Ltac api E :=
     cbn [Binder.exec];
     match goal with
-    | |- context [Binder.step ?f ?d ?c ?s] =>
+    | |- context [Binder.step ?f ?e ?d ?c ?s] =>
         let s1 := fresh "s1" in let r1 := fresh "r1" in
-        destruct (Binder.step f d c s) as [s1 r1] eqn:E
+        destruct (Binder.step f e d c s) as [s1 r1] eqn:E
     end.
 
   Ltac apin E sn rn :=
     cbn [Binder.exec];
     match goal with
-    | |- context [Binder.step ?f ?d ?c ?s] => destruct (Binder.step f d c s) as [sn rn] eqn:E
+    | |- context [Binder.step ?f ?e ?d ?c ?s] => destruct (Binder.step f e d c s) as [sn rn] eqn:E
     end.
 
   Definition marks_none (s : state) : Prop := s_mark s = mk0 /\ s_mark_end s = mke0.
@@ -208,7 +209,7 @@ Section Main.
   Proof.
     intros (HG & (Hk & Hke) & HJ & HK & Hn & Hbr & Hno & Hsh) Hnb E Hre.
     pose proof (step_spec _ _ _ _ _ _ E) as (Hm & Hmk & Hmke & [Hf | Hr]).
-    - assert (Hc : c <> ABind false) by (intros ->; exact Hnb).
+    - assert (Hc : forall u, c <> ABind false u) by (intros u ->; exact Hnb).
       pose proof (G_faulted _ _ _ _ HG Hc Hf) as HG1.
       destruct Hf as (_ & Hst & _).
       unfold INV. split; [exact HG1 |].
@@ -267,7 +268,7 @@ Section Main.
   Lemma base_add st g i o' :
     o' = others st ++ [new_rsv g i] -> base st -> base (set_others st o').
   Proof.
-    intros -> (Ha & Hn & Hr & Hp & Ho). unfold base. simpl. repeat split; auto.
+    intros -> (Ha & Hn & Hr & Hp & Ho & Ht). unfold base. simpl. repeat split; auto.
     apply Forall_app. split; [exact Ho |]. constructor; [| constructor]. simpl. unfold rsv_name. lia.
   Qed.
 
@@ -326,7 +327,7 @@ Section Main.
     assert (HI1 : INV s1).
     { eapply INV_step; eauto. intros Hr. destruct (Hre Hr) as (o' & Hst & Ho & Hsh).
       destruct HI as (HG & _ & HJ & HK & Hn & Hbr & Hno & _). rewrite Hst in Hsh |- *.
-      destruct HG as ((Ha & Hn0 & Hrs & Hp & _) & _).
+      destruct HG as ((Ha & Hn0 & Hrs & Hp & _ & Ht) & _).
       split; [unfold base; simpl; auto 10 |].
       split; [exact Hn |]. split; [exact HJ |]. split; [exact HK |]. split; [exact Hbr |].
       split; [exact Hno | exact Hsh]. }
@@ -337,18 +338,12 @@ Section Main.
   Qed.
 
   Lemma step_nfail c s s1 r1 :
-    step c s = (s1, r1) -> s_nfail s <= s_nfail s1 /\ (r1 = RFault -> s_nfail s < s_nfail s1)
+    step c s = (s1, r1) -> s_nfail s <= s_nfail s1 /\ True
     /\ (s_nfail s1 = s_nfail s -> reached dp c s s1 r1).
   Proof.
     intros E. pose proof (step_spec _ _ _ _ _ _ E) as (_ & _ & _ & [Hf | Hr]).
-    - destruct Hf as (Hr & _ & Hnf & _). split; [lia |]. split; intros; [lia | exfalso; lia].
-    - pose proof Hr as (_ & _ & Hnf & Hd & _). split; [lia |]. split; [| intros _; exact Hr].
-      intros ->. exfalso.
-      destruct c; cbn [do_call] in Hd;
-        repeat match type of Hd with
-               | context [match ?x with _ => _ end] => destruct x
-               | context [if ?x then _ else _] => destruct x
-               end; try discriminate.
+    - destruct Hf as (Hr & _ & Hnf & _). split; [lia |]. split; intros; [exact I | exfalso; lia].
+    - pose proof Hr as (_ & _ & Hnf & Hd & _). split; [lia |]. split; [exact I | intros _; exact Hr].
   Qed.
 
   Lemma INV_frame_G s s' : INV s -> frame_oth s s' -> s_nfail s <= s_nfail s'.
@@ -402,7 +397,7 @@ Section Main.
     assert (Hcr : has_pod (rsv_name g) (others (s_store s)) = false
                   /\ s_store s0 = set_others (s_store s) (others (s_store s) ++ [new_rsv g None]) /\ n = rsv_name g).
     { pose proof (step_spec _ _ _ _ _ _ E1) as (_ & _ & _ & [Hf | Hr]).
-      - destruct Hf as (Hx & _). discriminate.
+      - destruct Hf as ((k0 & Hx) & _). discriminate.
       - destruct Hr as (_ & _ & _ & Hd & _). cbn [is_watch] in Hd.
         destruct (do_create _ _ _ _ _ Hd) as [(_ & _ & Hr) | (Hh & Hst & Hr)]; [discriminate |].
         rewrite Hst1 in Hh, Hst. injection Hr as ->. auto. }
@@ -451,7 +446,7 @@ Section Main.
     cbn [Binder.exec fst snd].
     assert (Ho3 : others (s_store s2) = others (s_store s) ++ [new_rsv g (Some i)]).
     { pose proof (step_spec _ _ _ _ _ _ E2) as (_ & _ & _ & [Hf | Hr]).
-      - destruct Hf as (Hx & _). discriminate.
+      - destruct Hf as ((k0 & Hx) & _). discriminate.
       - destruct Hr as (_ & _ & _ & Hd & _). cbn [is_watch] in Hd.
         destruct (do_watch _ _ _ _ _ _ Hd) as [(i' & _ & _ & Hst & Hr) | (_ & Hr & _)]; [| discriminate].
         injection Hr as <-. rewrite Hst, Hst2. cbn [set_others others].
@@ -489,7 +484,7 @@ Section Main.
                else mem_with_labels m (Some g) (m_multi m)).
     set (dplain := if sc_multi sc then None else if opt_nat_eqb (m_plain m) (Some g) then None else Some g).
     set (dmulti := if sc_multi sc then if mem_nat g (m_multi m) then None else Some g else None).
-    match goal with |- context [Binder.step _ _ _ ?st] => set (sa := st) end.
+    match goal with |- context [Binder.step _ _ _ _ ?st] => set (sa := st) end.
     assert (HIa : INV sa).
     { apply (INV_set_mem s m' HI). destruct HI as (_ & _ & (J1 & J2 & _) & _).
       split; [| split; [| intros Hx; rewrite Hfr in Hx; discriminate]].
@@ -519,7 +514,7 @@ Section Main.
     assert (HI1 : INV s1).
     { eapply INV_step; eauto; [exact I |]. intros Hr. destruct (Hreach Hr) as (Hst & _). rewrite Hst.
       destruct HIa as (HGa & _ & (J1 & J2 & _) & HKa & Hna & Hbra & Hnoa & _).
-      destruct HGa as ((Ha & Hn0 & Hrs & Hp & Ho) & _).
+      destruct HGa as ((Ha & Hn0 & Hrs & Hp & Ho & Ht) & _).
       split; [unfold base; simpl; auto 10 |]. split; [exact Hna |]. split.
       - split; [| split; [| intros Hx; rewrite Hfr in Hx; discriminate]].
         + intros x Hx. right. cbn [self set_self] in Hx. rewrite Hp'multi in Hx. unfold m'. fold m in HM2.
@@ -562,7 +557,7 @@ Section Main.
              split; [intros i' Hi'; exfalso; eapply F5; eauto | intros Hx; exfalso; auto] ]).
     (* RPod: the patch reached the server *)
     assert (Hr : reached dp (APatchLabels dplain dmulti) sa s1 (RPod p)).
-    { destruct Hcase as [(Hx & _) | Hr]; [discriminate | exact Hr]. }
+    { destruct Hcase as [((k0 & Hx) & _) | Hr]; [discriminate | exact Hr]. }
     destruct (Hreach Hr) as (Hst & Hrp). injection Hrp as ->.
     cbn [Binder.exec fst snd].
     match goal with |- context [INV ?st] => set (sb := st) end.
@@ -674,12 +669,12 @@ Section Main.
     { intros P -> Hl. unfold rg_post. cbn [Binder.exec fst snd]. rewrite Hst1.
       split; [exact HI1 |]. split; [exact Hn1 |]. split; [reflexivity |]. split; [reflexivity |].
       split; [intros i Hi; discriminate Hi |]. intros A B C. exfalso. eauto. }
-    destruct r1 as [| | | | l | | | | |];
+    destruct r1 as [| k0 | | l | | | | |];
       try (apply Hnone; [reflexivity |]; intros Hx _ _; destruct (Hlv1 Hx) as (Hr & _); cbn [do_call snd] in Hr;
            discriminate Hr).
     assert (Hl : l = filter (fg g) (others (s_store s)) /\ s_nfail s1 = s_nfail s).
     { pose proof (step_spec _ _ _ _ _ _ E0) as (_ & _ & _ & [Hf | Hr]).
-      - destruct Hf as (Hx & _). discriminate.
+      - destruct Hf as ((k0 & Hx) & _). discriminate.
       - destruct Hr as (_ & _ & Hnf & Hd & _). cbn [do_call is_watch] in Hd. injection Hd as _ Hd.
         rewrite list_rsv in Hd; [auto | apply HI]. }
     destruct Hl as (Hl & Hnf1).
@@ -870,7 +865,7 @@ Section Main.
     assert (HI1 : INV s1).
     { eapply INV_step; eauto. intros Hr. destruct (Hre Hr) as (A1 & A2 & A3 & A4 & A5).
       destruct HI as (HG & _ & HJ & _ & Hn & Hbr & Hno & _).
-      destruct HG as ((Ha & Hn0 & Hrs & Hp & Ho) & _).
+      destruct HG as ((Ha & Hn0 & Hrs & Hp & Ho & Ht) & _).
       split; [unfold base; rewrite A1, A2, A3; auto 10 |].
       split; [rewrite A1; exact Hn |]. split; [unfold J; rewrite A1; exact HJ |].
       split; [left; exact HK |]. split; [congruence |]. split; [congruence |].
@@ -920,22 +915,22 @@ Section Main.
         + destruct (Hre _ _ Hr) as [(v & Hst & _) | (Hst & _)]; rewrite Hst, <- Hst1; [apply cm_get_put_other, Hy | reflexivity].
       - split.
         + intros Hr2. destruct Hcase as [Hf | Hr].
-          * destruct Hf as (-> & _). discriminate.
+          * destruct Hf as ((k0 & ->) & _). discriminate.
           * destruct (Hre _ _ Hr) as [(v & Hst & _) | (_ & _ & Hbad)].
             { rewrite Hst, cm_get_put; [discriminate | exact Hx]. }
             { rewrite Hbad in Hr2. discriminate. }
         + intros Hq. assert (Hq1 : s_nfail s1 = s_nfail s) by (destruct F2 as (_&_&_&_&_&_&?); lia).
           assert (Hq2 : s_nfail s2 = s_nfail s1) by lia.
           rewrite (Hok Hq1 _ _ (Hrch Hq2)). reflexivity. }
-    destruct r1 as [| | | | | | v | | |];
+    destruct r1 as [| k0 | | | | v | | |]; try destruct k0;
       try (apply Hdone; [reflexivity | intros Hq; specialize (Hget Hq); destruct (cm_get x (s_store s)); discriminate]).
     - (* NotFound: create *)
-      apply (Hwrite (ACreateCM x) I).
+      apply (Hwrite (ACreateCM x (m_uid (s_mem s))) I).
       + intros s2 r2 (_ & _ & _ & Hd & _). cbn [is_watch] in Hd.
-        destruct (do_create_cm _ _ _ _ _ Hx Hd) as [(_ & Hst & ->) | (_ & Hst & ->)]; [right | left; eauto].
+        destruct (do_create_cm _ _ _ _ _ _ Hx Hd) as [(_ & Hst & ->) | (_ & Hst & ->)]; [right | left; eauto].
         split; [exact Hst |]. split; [discriminate | reflexivity].
       + intros Hq s2 r2 (_ & _ & _ & Hd & _). cbn [is_watch] in Hd. specialize (Hget Hq).
-        destruct (do_create_cm _ _ _ _ _ Hx Hd) as [(Hne & _) | (_ & _ & ->)]; [| reflexivity].
+        destruct (do_create_cm _ _ _ _ _ _ Hx Hd) as [(Hne & _) | (_ & _ & ->)]; [| reflexivity].
         rewrite Hst1 in Hne. destruct (cm_get x (s_store s)); [discriminate | contradiction].
     - (* found: patch *)
       assert (Hp : forall o cl, 
@@ -951,7 +946,7 @@ Section Main.
         - intros Hq s2 r2 (_ & _ & _ & Hd & _). cbn [is_watch] in Hd. apply do_patch_cm in Hd.
           specialize (Hget Hq). rewrite Hst1 in Hd.
           destruct (cm_get x (s_store s)); [destruct Hd as (_ & ->); reflexivity | discriminate]. }
-      destruct (cm_owned v); apply Hp.
+      destruct (cm_owner v =? m_uid (s_mem s)); apply Hp.
   Qed.
 
   Definition keeps_keys (f : cdata -> cdata) : Prop :=
@@ -964,7 +959,7 @@ Section Main.
     let r := snd (exec (update_cm x f) s) in
     cm_post x s s'
     /\ (r = false -> exists v, cm_get x (s_store s) = Some v
-                             /\ cm_get x (s_store s') = Some (mkCM (cm_owned v) (f (cm_data v))))
+                             /\ cm_get x (s_store s') = Some (mkCM (cm_owner v) (f (cm_data v))))
     /\ (s_nfail s' = s_nfail s -> cm_get x (s_store s) <> None -> r = false).
   Proof.
     intros HI HK Hx Hf. unfold update_cm. apin E0 s1 r1.
@@ -972,23 +967,23 @@ Section Main.
     assert (F1 : frame_cm s s1) by (unfold frame_cm; rewrite Hst1, Hm1; repeat split; auto).
     assert (Hget : s_nfail s1 = s_nfail s -> r1 = match cm_get x (s_store s) with Some v => RCM v | None => RNotFound end).
     { intros Hq. destruct (Hlv1 Hq) as (-> & _). reflexivity. }
-    destruct r1 as [| | | | | | v | | |];
+    destruct r1 as [| k0 | | | | v | | |];
       try (cbn [Binder.exec fst snd]; split; [split; [exact HI1 |]; split; [exact F1 |]; intros y _; rewrite Hst1; reflexivity |];
            split; [discriminate |]; intros Hq Hne; specialize (Hget Hq); destruct (cm_get x (s_store s)); [discriminate | contradiction]).
     (* the config map was read *)
     assert (Hv : cm_get x (s_store s) = Some v).
     { pose proof (step_spec _ _ _ _ _ _ E0) as (_ & _ & _ & [Hf0 | Hr]).
-      - destruct Hf0 as (Hq & _). discriminate.
+      - destruct Hf0 as ((k0 & Hq) & _). discriminate.
       - destruct Hr as (_ & _ & _ & Hd & _). cbn [is_watch] in Hd. apply do_get_cm in Hd as (_ & Hd).
         destruct (cm_get x (s_store s)); [injection Hd as ->; reflexivity | discriminate]. }
     apin E2 s2 r2. cbn [Binder.exec fst snd].
     set (sets := data_diff (cm_data v) (f (cm_data v))).
-    assert (Hreach : reached dp (APatchCM x false false sets) s1 s2 r2 ->
-              s_store s2 = cm_put x (Some (mkCM (cm_owned v) (f (cm_data v)))) (s_store s1) /\ r2 = ROk).
+    assert (Hreach : reached dp (APatchCM x None false sets) s1 s2 r2 ->
+              s_store s2 = cm_put x (Some (mkCM (cm_owner v) (f (cm_data v)))) (s_store s1) /\ r2 = ROk).
     { intros (_ & _ & _ & Hd & _). cbn [is_watch] in Hd. apply do_patch_cm in Hd. rewrite Hst1, Hv in Hd.
       destruct Hd as (Hst & ->). split; [| reflexivity]. rewrite Hst, Hst1. unfold sets.
       rewrite data_patch; [reflexivity | apply Hf]. }
-    destruct (step_cm (APatchCM x false false sets) _ _ _ HI1 HK I E2) as (HI2 & F2).
+    destruct (step_cm (APatchCM x None false sets) _ _ _ HI1 HK I E2) as (HI2 & F2).
     { intros Hr. destruct (Hreach Hr) as (Hst & _). rewrite Hst. apply cm_put_same. }
     pose proof (step_spec _ _ _ _ _ _ E2) as (_ & _ & _ & Hcase).
     destruct (step_nfail _ _ _ _ E2) as (Hle & _ & Hrch).
@@ -998,7 +993,7 @@ Section Main.
       + destruct (Hreach Hr) as (Hst & _). rewrite Hst, <- Hst1. apply cm_get_put_other, Hy.
     - split.
       + intros Hr2. exists v. split; [exact Hv |]. destruct Hcase as [Hf0 | Hr].
-        * destruct Hf0 as (-> & _). discriminate.
+        * destruct Hf0 as ((k0 & ->) & _). discriminate.
         * destruct (Hreach Hr) as (Hst & _). rewrite Hst. apply cm_get_put, Hx.
       + intros Hq _. assert (Hq2 : s_nfail s2 = s_nfail s1) by (destruct F2 as (_&_&_&_&_&_&?); lia).
         destruct (Hreach (Hrch Hq2)) as (_ & ->). reflexivity.
@@ -1147,7 +1142,7 @@ Section Main.
 
   (** the binding call *)
   Lemma bind_step s s1 r1 :
-    G s -> p_node (self (s_store s)) = 0 -> step (ABind true) s = (s1, r1) ->
+    G s -> p_node (self (s_store s)) = 0 -> step (ABind true (p_uid (self (s_store s)))) s = (s1, r1) ->
     G s1 /\ s_mem s1 = s_mem s /\ s_mark s1 = s_mark s /\ s_mark_end s1 = s_mark_end s
     /\ s_nfail s <= s_nfail s1
     /\ (r1 = ROk -> s_store s1 = set_self (s_store s) (with_node (self (s_store s)) 1))
@@ -1155,13 +1150,13 @@ Section Main.
     /\ (s_nfail s1 = s_nfail s -> r1 = ROk).
   Proof.
     intros HG Hn E. pose proof (step_spec _ _ _ _ _ _ E) as (Hm & Hk & Hke & [Hf | Hr]).
-    - pose proof (G_faulted (ABind true) _ _ _ HG ltac:(discriminate) Hf) as HG1.
-      destruct Hf as (-> & Hst & Hnf & _).
+    - pose proof (G_faulted (ABind true _) _ _ _ HG ltac:(intros u; discriminate) Hf) as HG1.
+      destruct Hf as ((k0 & ->) & Hst & Hnf & _).
       split; [exact HG1 |]. split; [exact Hm |]. split; [exact Hk |]. split; [exact Hke |]. split; [lia |].
       split; [discriminate |]. split; [auto |]. intros; lia.
     - destruct Hr as (_ & _ & Hnf & Hd & Hlog & Hhist). cbn [is_watch] in Hd.
-      destruct HG as (Hb & Hh & Hbi & He & Hnn). pose proof Hb as (Ha & Hn0 & Hrs & Hp & Ho).
-      destruct (do_bind _ _ _ _ Ha Hd) as [(_ & Hst & ->) | (Hne & _)]; [| contradiction].
+      destruct HG as (Hb & Hh & Hbi & He & Hnn). pose proof Hb as (Ha & Hn0 & Hrs & Hp & Ho & Ht).
+      destruct (do_bind _ _ _ _ Ha Ht Hd) as [(_ & Hst & ->) | (Hne & _)]; [| contradiction].
       split.
       + split; [rewrite Hst; unfold base; simpl; auto 10 |].
         unfold hist_ok. rewrite Hhist, Hlog, Hst. cbn [self set_self with_node p_node resp_outcome obs_of].
@@ -1177,17 +1172,17 @@ Section Main.
     /\ others st' = others st /\ cm_cap st' = cm_cap st /\ cm_evar st' = cm_evar st
     /\ br st' = br st /\ node_ok st' = node_ok st.
 
-  Definition bind_tail : prog err :=
+  Definition bind_tail (u : nat) : prog err :=
     Api (APatchRecv (recv_type sc)) (fun r1 =>
       match r1 with
-      | RPod p => SetMem (mem_of p) (Api (ABind true) (fun r2 => match r2 with ROk => Ret ENone | _ => Ret EErr end))
+      | RPod p => SetMem (mem_of p) (Api (ABind true u) (fun r2 => Ret (bind_result_code r2)))
       | _ => Ret EErr
       end).
 
-  Lemma bind_tail_spec s :
-    INV s ->
-    let s' := fst (exec bind_tail s) in
-    let e := snd (exec bind_tail s) in
+  Lemma bind_tail_spec u s :
+    INV s -> u = p_uid (self (s_store s)) ->
+    let s' := fst (exec (bind_tail u) s) in
+    let e := snd (exec (bind_tail u) s) in
     s_nfail s <= s_nfail s'
     /\ match e with
        | ENone => G s' /\ marks_none s' /\ p_node (self (s_store s')) = 1
@@ -1197,7 +1192,7 @@ Section Main.
        end
     /\ (s_nfail s' = s_nfail s -> e = ENone).
   Proof.
-    intros HI. unfold bind_tail. apin E1 s1 r1.
+    intros HI Hu. unfold bind_tail. apin E1 s1 r1.
     assert (Halive : self_alive (s_store s) = true) by apply HI.
     assert (Hreach : reached dp (APatchRecv (recv_type sc)) s s1 r1 ->
               s_store s1 = set_self (s_store s) (with_recv (self (s_store s)) (Some (recv_type sc)))
@@ -1205,7 +1200,7 @@ Section Main.
     { intros (_ & _ & _ & Hd & _). cbn [is_watch] in Hd. apply (do_patch_recv _ _ _ _ _ Halive Hd). }
     assert (HI1 : INV s1).
     { eapply INV_step; eauto; [exact I |]. intros Hr. destruct (Hreach Hr) as (Hst & _). rewrite Hst.
-      destruct HI as (HG & _ & HJ & HK & Hn & Hbr & Hno & _). destruct HG as ((Ha & Hn0 & Hrs & Hp & Ho) & _).
+      destruct HI as (HG & _ & HJ & HK & Hn & Hbr & Hno & _). destruct HG as ((Ha & Hn0 & Hrs & Hp & Ho & Ht) & _).
       split; [unfold base; simpl; auto 10 |]. split; [exact Hn |]. split; [exact HJ |]. split; [exact HK |].
       split; [exact Hbr |]. split; [exact Hno |]. auto. }
     destruct (step_nfail _ _ _ _ E1) as (Hle1 & _ & Hrch1).
@@ -1214,16 +1209,19 @@ Section Main.
       try (cbn [Binder.exec fst snd]; split; [exact Hle1 |]; split; [exact HI1 |];
            intros Hq; destruct (Hreach (Hrch1 Hq)) as (_ & Hr); discriminate).
     assert (Hr : reached dp (APatchRecv (recv_type sc)) s s1 (RPod p)).
-    { destruct Hcase as [(Hq & _) | Hr]; [discriminate | exact Hr]. }
+    { destruct Hcase as [((k0 & Hq) & _) | Hr]; [discriminate | exact Hr]. }
     destruct (Hreach Hr) as (Hst1 & Hp). injection Hp as ->.
     cbn [Binder.exec].
-    match goal with |- context [Binder.step _ _ _ ?st] => set (sa := st) end.
+    match goal with |- context [Binder.step _ _ _ _ ?st] => set (sa := st) end.
     assert (HIa : INV sa).
     { apply (INV_set_mem s1 _ HI1). rewrite Hst1. cbn [self set_self with_recv p_multi p_plain mem_of m_multi m_plain].
       destruct HI as (_ & _ & (_ & _ & J3) & _).
       split; [intros x Hx; right; exact Hx |]. split; [intros x Hx; right; simpl in Hx |- *; rewrite Hx; reflexivity |].
       exact J3. }
-    destruct (Binder.step faults dp (ABind true) sa) as [s2 r2] eqn:E2.
+    assert (Huid : u = p_uid (self (s_store sa))).
+    { unfold sa. cbn [s_store]. rewrite Hst1. exact Hu. }
+    rewrite Huid.
+    destruct (Binder.step faults no_env dp (ABind true (p_uid (self (s_store sa)))) sa) as [s2 r2] eqn:E2.
     assert (Hna : p_node (self (s_store sa)) = 0) by apply HIa.
     destruct (bind_step sa s2 r2 (proj1 HIa) Hna E2) as (HG2 & Hm2 & Hk2 & Hke2 & Hle2 & Hok2 & Hnok2 & Hlv2).
     assert (Hnfa : s_nfail sa = s_nfail s1) by reflexivity.
@@ -1262,25 +1260,25 @@ Section Main.
     /\ (s_nfail s' = s_nfail s -> dp_ok -> Live (s_store s) -> attemptable_sc sc -> e = ENone).
 
   (** everything of Bind after the reservations *)
-  Definition bind_rest (idxs : list nat) : prog err :=
+  Definition bind_rest (u : nat) (idxs : list nat) : prog err :=
     GetMem (fun m => SetMem (mem_with_node m 1) (
       if negb (sc_k8s_ok sc)
       then GetMem (fun m2 => SetMem (mem_with_node m2 0) (Ret EErr))
       else
         e1 <- (if sc_fraction sc then gpusharing_prebind sc idxs else Ret false) ;;
-        if (e1 : bool) then Ret EErr else bind_tail)).
+        if (e1 : bool) then Ret EErr else bind_tail u)).
 
-  Lemma bind_rest_spec idxs s :
-    INV s ->
+  Lemma bind_rest_spec u idxs s :
+    INV s -> u = p_uid (self (s_store s)) ->
     (sc_fraction sc = true -> Lab (sc_groups sc) (self (s_store s)) /\ all_idx (sc_groups sc) (s_store s) = Some idxs) ->
-    let s' := fst (exec (bind_rest idxs) s) in
-    let e := snd (exec (bind_rest idxs) s) in
+    let s' := fst (exec (bind_rest u idxs) s) in
+    let e := snd (exec (bind_rest u idxs) s) in
     s_nfail s <= s_nfail s'
     /\ match e with ENone => bound_facts s' | EErr => INV s' | EInvalid => False end
     /\ (s_nfail s' = s_nfail s -> sc_k8s_ok sc = true -> (sc_fraction sc = true -> sc_cmann sc = true) -> e = ENone).
   Proof.
-    intros HI Hres. unfold bind_rest. cbn [Binder.exec].
-    match goal with |- context [Binder.exec _ _ _ _ ?st] => set (sa := st) end.
+    intros HI Hu Hres. unfold bind_rest. cbn [Binder.exec].
+    match goal with |- context [Binder.exec _ _ _ _ _ ?st] => set (sa := st) end.
     assert (HIa : INV sa).
     { apply (INV_set_mem s _ HI). destruct HI as (_ & _ & HJ & _). exact HJ. }
     assert (Hsa : s_store sa = s_store s /\ s_nfail sa = s_nfail s) by (split; reflexivity).
@@ -1306,8 +1304,9 @@ Section Main.
     destruct e1.
     { cbn [Binder.exec fst snd]. split; [lia |]. split; [exact HI1 |].
       intros Hq _ Hc. specialize (Hlv1 ltac:(lia) Hc). discriminate. }
-    destruct (bind_tail_spec s1 HI1) as (T1 & T2 & T3).
-    destruct (exec bind_tail s1) as [s2 e2]. cbn [fst snd] in *.
+    assert (Hu1 : u = p_uid (self (s_store s1))) by (rewrite Fself, Hsta; exact Hu).
+    destruct (bind_tail_spec u s1 HI1 Hu1) as (T1 & T2 & T3).
+    destruct (exec (bind_tail u) s1) as [s2 e2]. cbn [fst snd] in *.
     split; [lia |]. split.
     - destruct e2; [| exact T2 | exact T2].
       destruct T2 as (HG2 & Hmk2 & Hn2 & Hrecv2 & (S1 & S2 & S3 & S4 & S5 & S6 & S7)).
@@ -1325,23 +1324,25 @@ Section Main.
   Qed.
 
   Lemma bind_prog_eq :
-    bind_prog sc =
-    (e0 <- sync_for_node ;;
+    bind_prog sc bind_result_code false =
+    GetMem (fun m0 =>
+     e0 <- sync_for_node ;;
      if (e0 : bool) then Ret EErr else
      r <- (if sc_fraction sc then reserve_gpus sc else Ret (ENone, [])) ;;
      match fst r with
-     | ENone => bind_rest (snd r)
+     | ENone => bind_rest (m_uid m0) (snd r)
      | e => Ret e
      end).
   Proof. reflexivity. Qed.
 
   (** Binder.Bind *)
   Lemma bind_prog_spec s :
-    INV s -> M s ->
-    bp_post s (fst (exec (bind_prog sc) s)) (snd (exec (bind_prog sc) s)).
+    INV s -> M s -> m_uid (s_mem s) = p_uid (self (s_store s)) ->
+    bp_post s (fst (exec (bind_prog sc bind_result_code false) s)) (snd (exec (bind_prog sc bind_result_code false) s)).
   Proof.
-    intros HI HM. rewrite bind_prog_eq, exec_bind.
+    intros HI HM Hmu. rewrite bind_prog_eq. cbn [Binder.exec]. rewrite exec_bind.
     destruct (sync_for_node_spec faults dp ord s (proj1 HI)) as (S1 & S2 & S3).
+    pose proof (exec_uid faults dp ord sync_for_node s) as Hu01.
     destruct (exec sync_for_node s) as [s1 e0]. cbn [fst snd] in *.
     assert (HI1 : INV s1) by (eapply INV_only_others; eauto).
     pose proof S2 as (O1 & _ & _ & _ & _ & _ & O7 & _ & _ & O10 & O11 & _).
@@ -1367,11 +1368,13 @@ Section Main.
         + intros Hq Hdp Hl Hne. apply R6; auto.
       - exists s1, (ENone, []). split; [reflexivity |]. split; [exact HI1 |]. split; [lia |].
         split; [intros Hx; discriminate | reflexivity]. }
-    destruct Hres as (s2 & r & -> & HI2 & Hle2 & Hr & Hlv2).
+    pose proof (exec_uid faults dp ord (if sc_fraction sc then reserve_gpus sc else Ret (ENone, [])) s1) as Hu12.
+    destruct Hres as (s2 & r & Hex & HI2 & Hle2 & Hr & Hlv2). rewrite Hex in Hu12 |- *. cbn [fst] in Hu12.
     assert (Hl1 : Live (s_store s) -> Live (s_store s1)) by (intros Hl; eapply Live_incl; eauto).
     destruct (fst r) eqn:Er.
-    - destruct (bind_rest_spec (snd r) s2 HI2 Hr) as (B1 & B2 & B3).
-      destruct (exec (bind_rest (snd r)) s2) as [s3 e]. cbn [fst snd] in *.
+    - assert (Hu2 : m_uid (s_mem s) = p_uid (self (s_store s2))) by congruence.
+      destruct (bind_rest_spec (m_uid (s_mem s)) (snd r) s2 HI2 Hu2 Hr) as (B1 & B2 & B3).
+      destruct (exec (bind_rest (m_uid (s_mem s)) (snd r)) s2) as [s3 e]. cbn [fst snd] in *.
       split; [lia |]. split.
       + destruct e; [exact B2 | exact B2 | contradiction].
       + intros Hq Hdp Hl (Hk & Hc). apply B3; [lia | exact Hk | intros Hfr; apply (Hc Hfr)].
@@ -1394,14 +1397,14 @@ Section Roll.
   Variable br0 : option brst.
   Variable mk0 : option (nat * nat).
   Variable mke0 : option nat.
-  Notation exec := (Binder.exec faults dp ord).
-  Notation step := (Binder.step faults dp).
+  Notation exec := (Binder.exec faults no_env dp ord).
+  Notation step := (Binder.step faults no_env dp).
   Notation INV := (INV sc init br0 mk0 mke0).
 
   Ltac apin E sn rn :=
     cbn [Binder.exec];
     match goal with
-    | |- context [Binder.step ?f ?d ?c ?s] => destruct (Binder.step f d c s) as [sn rn] eqn:E
+    | |- context [Binder.step ?f ?e ?d ?c ?s] => destruct (Binder.step f e d c s) as [sn rn] eqn:E
     end.
 
   Definition CleanCM (st : store) : Prop :=
@@ -1542,7 +1545,7 @@ Section Roll.
       assert (HI1 : INV s1).
       { eapply INV_step; eauto; [exact I |]. intros Hr. destruct (Hreach Hr) as (Hst & _). rewrite Hst.
         destruct HI as (HG & _ & (_ & _ & J3) & HK & Hn & Hbr & Hno & _).
-        destruct HG as ((Ha & Hn0 & Hrs & Hp & Ho) & _).
+        destruct HG as ((Ha & Hn0 & Hrs & Hp & Ho & Ht) & _).
         split; [unfold base; simpl; auto 10 |]. split; [exact Hn |]. split.
         - cbn [self set_self]. unfold p'. cbn [p_plain p_multi with_labels]. split; [| split].
           + intros g Hg. apply filter_In in Hg as (Hg & _). apply J1, Hg.
@@ -1562,10 +1565,10 @@ Section Roll.
              intros Hq; exfalso; assert (Hq1 : s_nfail s1 = s_nfail s) by lia;
              destruct (Hreach (Hrch1 Hq1)) as (_ & Hr); discriminate).
       assert (Hr : reached dp c s s1 (RPod p)).
-      { destruct Hcase as [(Hq & _) | Hr]; [discriminate | exact Hr]. }
+      { destruct Hcase as [((k0 & Hq) & _) | Hr]; [discriminate | exact Hr]. }
       destruct (Hreach Hr) as (Hst1 & Hp). injection Hp as ->.
       cbn [Binder.exec].
-      match goal with |- context [Binder.exec _ _ _ sync_tail ?st] => set (sa := st) end.
+      match goal with |- context [Binder.exec _ _ _ _ sync_tail ?st] => set (sa := st) end.
       assert (HIa : INV sa).
       { apply (INV_set_mem sc init br0 mk0 mke0 s1 _ HI1). rewrite Hst1. cbn [self set_self].
         split; [intros g Hg; right; exact Hg |].
@@ -1589,13 +1592,13 @@ Section Final.
   Variable ord : nat -> list gid.
   Variable sc : scen.
   Variable init : store.
-  Notation exec := (Binder.exec faults dp ord).
-  Notation step := (Binder.step faults dp).
+  Notation exec := (Binder.exec faults no_env dp ord).
+  Notation step := (Binder.step faults no_env dp).
 
   Ltac apin E sn rn :=
     cbn [Binder.exec];
     match goal with
-    | |- context [Binder.step ?f ?d ?c ?s] => destruct (Binder.step f d c s) as [sn rn] eqn:E
+    | |- context [Binder.step ?f ?e ?d ?c ?s] => destruct (Binder.step f e d c s) as [sn rn] eqn:E
     end.
 
   Lemma INV_remark b0 mk mke mk' mke' s s' :
@@ -1622,7 +1625,7 @@ Section Final.
     /\ (s_nfail s' = s_nfail s -> clean init (s_store s') = true).
   Proof.
     intros HI. rewrite rollback_eq. cbn [Binder.exec].
-    match goal with |- context [Binder.exec _ _ _ _ ?st] => set (sm := st) end.
+    match goal with |- context [Binder.exec _ _ _ _ _ ?st] => set (sm := st) end.
     set (mk := Some (s_idx s, s_nfail s)).
     assert (HIm : INV sc init b0 mk (s_mark_end s) sm).
     { eapply INV_remark; [exact HI | | | | | |]; reflexivity. }
@@ -1678,15 +1681,22 @@ Section Final.
     /\ p_recv (self st') = p_recv (self st).
   Proof.
     intros (H & _). destruct (self st'), (self st). unfold with_cond in H. simpl in *.
-    injection H as -> -> -> -> -> -> -> ->. auto 10.
+    injection H as -> -> -> -> -> -> -> -> -> ->. auto 10.
+  Qed.
+
+  Lemma bc_frame_term st st' : bc_frame st st' -> p_term (self st') = p_term (self st).
+  Proof.
+    intros (H & _). destruct (self st'), (self st). unfold with_cond in H. simpl in *.
+    injection H as -> -> -> -> -> -> -> -> -> ->. reflexivity.
   Qed.
 
   Lemma G_bc s s' :
     G s -> bc_frame (s_store s) (s_store s') -> s_log s' = s_log s -> s_hist s' = s_hist s -> G s'.
   Proof.
-    intros ((Ha & Hn0 & Hrs & Hp & Ho) & Hh & Hbi & He & Hn) F Hl Hhi.
-    destruct (bc_frame_fields _ _ F) as (F1 & F2 & F3 & F4 & _). destruct F as (_ & Fa & Fo & _).
-    split; [unfold base; rewrite Fa, F1, F2, F4, Fo; auto 10 |].
+    intros ((Ha & Hn0 & Hrs & Hp & Ho & Ht) & Hh & Hbi & He & Hn) F Hl Hhi.
+    destruct (bc_frame_fields _ _ F) as (F1 & F2 & F3 & F4 & _). pose proof (bc_frame_term _ _ F) as Ft'.
+    destruct F as (_ & Fa & Fo & _).
+    split; [unfold base; rewrite Fa, F1, F2, F4, Fo, Ft'; auto 10 |].
     unfold hist_ok. rewrite Hl, Hhi, F3. auto.
   Qed.
 
@@ -1699,13 +1709,14 @@ Section Final.
     /\ (s_crashed s = true -> s_crashed s1 = true).
   Proof.
     intros HG Hnb E Hre. pose proof (step_spec _ _ _ _ _ _ E) as (Hm & Hk & Hke & [Hf | Hr]).
-    - assert (Hc : c <> ABind false) by (intros ->; exact Hnb).
+    - assert (Hc : forall u, c <> ABind false u) by (intros u ->; exact Hnb).
       pose proof (G_faulted _ _ _ _ HG Hc Hf) as HG1. destruct Hf as (_ & Hst & Hnf & Hcr & _).
       rewrite Hst. split; [exact HG1 |]. split; [apply bc_frame_refl |]. repeat split; auto. lia.
     - pose proof (Hre Hr) as F. destruct (bc_frame_fields _ _ F) as (F1 & F2 & F3 & F4 & _).
       assert (HG1 : G s1).
-      { eapply G_reached; eauto. destruct HG as ((Ha & Hn0 & Hrs & Hp & Ho) & _).
-        destruct F as (_ & Fa & Fo & _). unfold base. rewrite Fa, F1, F2, F4, Fo. auto 10. }
+      { eapply G_reached; eauto. destruct HG as ((Ha & Hn0 & Hrs & Hp & Ho & Ht) & _).
+        pose proof (bc_frame_term _ _ F) as Ft'.
+        destruct F as (_ & Fa & Fo & _). unfold base. rewrite Fa, F1, F2, F4, Fo, Ft'. auto 10. }
       destruct Hr as (Hc & Hc' & Hnf & _). split; [exact HG1 |]. split; [exact F |].
       repeat split; auto; [lia | congruence].
   Qed.
@@ -1749,8 +1760,8 @@ Section Final.
         + intros -> Hbr. right. apply andb_true_iff in Esame as (Hph & _). apply brphase_eqb_eq in Hph.
           destruct Hbr as [-> | ->]; auto.
       - cbn [Binder.exec].
-        match goal with |- context [Binder.step _ _ ?c s] => set (c0 := c) end.
-        destruct (Binder.step faults dp c0 s) as [s1 r1] eqn:E1. exists s1, e. split; [reflexivity |].
+        match goal with |- context [Binder.step _ _ _ ?c s] => set (c0 := c) end.
+        destruct (Binder.step faults no_env dp c0 s) as [s1 r1] eqn:E1. exists s1, e. split; [reflexivity |].
         assert (Hreach : reached dp c0 s s1 r1 ->
                   match br (s_store s) with
                   | Some b0 => s_store s1 = set_br (s_store s)
@@ -1774,7 +1785,7 @@ Section Final.
     destruct Hst as (s1 & e1 & -> & HG1 & F1 & Hm1 & Hk1 & Hke1 & Hn1 & Hc1 & Hbr1 & Hrep1).
     (* the pod condition *)
     cbn [Binder.exec].
-    set (c := negb e1 || negb (requeue =? 0)).
+    set (c := negb e).
     match goal with |- context [if ?x then _ else _] => destruct x eqn:Ech end.
     2: { cbn [Binder.exec fst snd]. split; [exact HG1 |]. split; [exact F1 |]. repeat split; auto.
          intros He Hbr. unfold reported. destruct (Hrep1 He Hbr) as [-> | Hp].
@@ -1849,7 +1860,7 @@ Section Final.
 
   Lemma INV_init : init_ok init -> INV sc init (br init) None None (init_state init).
   Proof.
-    intros (Ha & Hn0 & Hrs & Hp & Hn & Ho & _). unfold INV. cbn [init_state s_store s_mem].
+    intros (Ha & Hn0 & Hrs & Hp & Hterm & Hn & Ho & _). unfold INV. cbn [init_state s_store s_mem].
     split.
     - split; [unfold base; auto 10 |]. unfold hist_ok. simpl. rewrite Hn. auto.
     - split; [split; reflexivity |]. split; [unfold J; auto 10 |]. split; [right; auto |]. auto 10.
@@ -1859,7 +1870,8 @@ Section Final.
     G s' /\ node_ok (s_store s') = node_ok init /\ (SH init -> SH (s_store s'))
     /\ (exists b1, br (s_store s') = Some b1 /\ (b_phase b1 = BSucceeded -> p_node (self (s_store s')) = 1))
     /\ ((p_node (self (s_store s')) = 1 /\ side_ok sc (s_store s') = true)
-        \/ (p_node (self (s_store s')) = 0 /\ reported (s_store s') (s_crashed s') (snd res) = true
+        \/ (p_node (self (s_store s')) = 0
+            /\ (reported (s_store s') (s_crashed s') (snd res) = true \/ nothing_done (s_log s') = true)
             /\ (cleanup_unfaulted s' = true -> clean init (s_store s') = true))).
 
   Lemma exit_unbound b mk mke s :
@@ -1879,7 +1891,7 @@ Section Final.
     - unfold br_post in D7. rewrite Hbr in D7. destruct (br (s_store s')) as [b1 |]; [| discriminate].
       exists b1. split; [reflexivity |]. intros Hs. exfalso. destruct D7 as (b0 & Hb0 & Hcase). injection Hb0 as <-.
       destruct Hcase as [-> | [Hx | Hx]]; congruence.
-    - right. split; [congruence |]. split; [apply D8; auto |].
+    - right. split; [congruence |]. split; [left; apply D8; auto |].
       intros Hc. rewrite (clean_bc _ _ D2). apply Hcl.
       unfold cleanup_unfaulted in *. rewrite D3, D4 in Hc. exact Hc.
   Qed.
@@ -1903,7 +1915,7 @@ Section Final.
 
   Lemma get_step c s s1 r1 :
     readonly c = true -> step c s = (s1, r1) ->
-    r1 = RFault \/ r1 = snd (do_call c None (s_store s)).
+    (exists k, r1 = RErr k) \/ r1 = snd (do_call c None (s_store s)).
   Proof.
     intros Hro E. pose proof (step_spec _ _ _ _ _ _ E) as (_ & _ & _ & [Hf | Hr]).
     - left. apply Hf.
@@ -1917,10 +1929,10 @@ Section Final.
 
   Theorem reconcile_master :
     wf_shape sc = true -> init_ok init ->
-    fin_post (fst (exec (reconcile sc) (init_state init))) (snd (exec (reconcile sc) (init_state init))).
+    fin_post (fst (exec (reconcile sc bind_result_code false) (init_state init))) (snd (exec (reconcile sc bind_result_code false) (init_state init))).
   Proof.
     intros Hwf Hok. pose proof (INV_init Hok) as HI0.
-    destruct Hok as (Ha & Hn0 & Hrs & Hp & Hn & Ho & (b & Hb & Hph)).
+    destruct Hok as (Ha & Hn0 & Hrs & Hp & Hterm & Hn & Ho & (b & Hb & Hph)).
     rewrite Hb in HI0.
     set (s0 := init_state init) in *.
     assert (Hst0 : s_store s0 = init) by reflexivity.
@@ -1932,41 +1944,53 @@ Section Final.
     { intros s res HI Hst Hres. pose proof HI as (HG & (Hmk & _) & _ & _ & Hnn & Hbr & Hno & Hsh).
       unfold fin_post. split; [exact HG |]. split; [exact Hno |]. split; [exact Hsh |].
       split; [exists b; split; [exact Hbr | intros; contradiction] |].
-      right. split; [exact Hnn |]. split; [unfold reported; rewrite Hres, orb_true_r; reflexivity |].
+      right. split; [exact Hnn |]. split; [left; unfold reported; rewrite Hres, orb_true_r; reflexivity |].
+      intros _. rewrite Hst. apply clean_refl. }
+    assert (Hnoop : forall s (res : nat * bool), INV sc init (Some b) None None s -> s_store s = init ->
+              nothing_done (s_log s) = true -> fin_post s res).
+    { intros s res HI Hst Hres. pose proof HI as (HG & (Hmk & _) & _ & _ & Hnn & Hbr & Hno & Hsh).
+      unfold fin_post. split; [exact HG |]. split; [exact Hno |]. split; [exact Hsh |].
+      split; [exists b; split; [exact Hbr | intros; contradiction] |].
+      right. split; [exact Hnn |]. split; [right; exact Hres |].
       intros _. rewrite Hst. apply clean_refl. }
     assert (Hdefer : forall s, INV sc init (Some b) None None s -> s_store s = init ->
               fin_post (fst (exec (deferred sc b true) s)) (snd (exec (deferred sc b true) s))).
     { intros s HI Hst. apply (exit_unbound b None None s HI Hph). intros _. rewrite Hst. apply clean_refl. }
-    destruct (get_step AGetBR _ _ _ eq_refl E1) as [-> | Hr1].
-    { cbn [Binder.exec fst snd]. apply Hexit; auto. }
+    destruct (get_step AGetBR _ _ _ eq_refl E1) as [(k1 & ->) | Hr1].
+    { destruct k1; cbn [Binder.exec fst snd]; try (apply Hexit; auto; fail).
+      apply Hnoop; auto.
+      pose proof (step_spec _ _ _ _ _ _ E1) as (_ & _ & _ & [Hf | Hr]).
+      - destruct Hf as (_ & _ & _ & _ & (o & _ & Hlog) & _). rewrite Hlog. reflexivity.
+      - destruct Hr as (_ & _ & _ & Hd & Hlog & _). rewrite Hlog. reflexivity. }
     rewrite Hst0 in Hr1. cbn [do_call snd] in Hr1. rewrite Hb in Hr1. subst r1.
     destruct (b_phase b) eqn:Eph; [| contradiction |].
     all: cbn [Binder.exec].
-    all: match goal with |- context [Binder.step _ _ AGetPod ?st] => set (s2 := st) end.
+    all: match goal with |- context [Binder.step _ _ _ AGetPod ?st] => set (s2 := st) end.
     all: assert (HI2 : INV sc init (Some b) None None s2)
       by (apply (INV_set_mem sc init (Some b) None None s1 mem_shell HI1); rewrite Hst1; unfold J; auto 10).
     all: assert (Hst2 : s_store s2 = init) by exact Hst1.
-    all: destruct (Binder.step faults dp AGetPod s2) as [s3 r3] eqn:E3.
+    all: destruct (Binder.step faults no_env dp AGetPod s2) as [s3 r3] eqn:E3.
     all: destruct (ro_step faults dp sc init (Some b) None None AGetPod _ _ _ HI2 eq_refl E3) as (HI3 & Hst3 & Hm3 & _ & _).
     all: rewrite Hst2 in Hst3.
-    all: destruct (get_step AGetPod _ _ _ eq_refl E3) as [-> | Hr3]; [apply Hdefer; auto |].
+    all: destruct (get_step AGetPod _ _ _ eq_refl E3) as [(k3 & ->) | Hr3]; [apply Hdefer; auto |].
     all: rewrite Hst2 in Hr3; cbn [do_call snd] in Hr3; rewrite Ha in Hr3; subst r3.
     all: cbn [Binder.exec]; rewrite Hn; cbn [Nat.eqb negb]; cbn [Binder.exec].
-    all: match goal with |- context [Binder.step _ _ AGetNode ?st] => set (s4 := st) end.
+    all: match goal with |- context [Binder.step _ _ _ AGetNode ?st] => set (s4 := st) end.
     all: assert (HI4 : INV sc init (Some b) None None s4)
       by (apply (INV_set_mem sc init (Some b) None None s3 (mem_of (self init)) HI3); rewrite Hst3; unfold J;
           split; [auto | split; [intros g Hg; auto | auto]]).
     all: assert (Hst4 : s_store s4 = init) by exact Hst3.
     all: assert (HM4 : M s4) by (unfold M; rewrite Hst4; split; reflexivity).
-    all: destruct (Binder.step faults dp AGetNode s4) as [s5 r5] eqn:E5.
+    all: destruct (Binder.step faults no_env dp AGetNode s4) as [s5 r5] eqn:E5.
     all: destruct (ro_step faults dp sc init (Some b) None None AGetNode _ _ _ HI4 eq_refl E5) as (HI5 & Hst5 & Hm5 & _ & _).
     all: assert (HM5 : M s5) by (unfold M; rewrite Hst5, Hm5; exact HM4).
     all: rewrite Hst4 in Hst5.
     all: destruct r5; try (apply Hdefer; auto).
     (* the node was read: Bind *)
     all: rewrite exec_bind.
-    all: pose proof (bind_prog_spec faults dp ord sc init (Some b) None None s5 HI5 HM5) as (B1 & B2 & _).
-    all: destruct (exec (bind_prog sc) s5) as [s6 e]; cbn [fst snd] in *.
+    all: assert (Hmu5 : m_uid (s_mem s5) = p_uid (self (s_store s5))) by (rewrite Hm5, Hst5; reflexivity).
+    all: pose proof (bind_prog_spec faults dp ord sc init (Some b) None None s5 HI5 HM5 Hmu5) as (B1 & B2 & _).
+    all: destruct (exec (bind_prog sc bind_result_code false) s5) as [s6 e]; cbn [fst snd] in *.
     all: destruct e.
     all: try (destruct B2 as (_ & Hfr & Hg); exfalso; unfold wf_shape in Hwf; rewrite Hfr, Hg in Hwf; discriminate).
     all: cbn [Binder.exec bind]; try (apply exit_bound; auto).
@@ -1987,7 +2011,7 @@ Section Final.
     s_crashed s1 = false /\ s_nfail s1 = s_nfail s /\ reached dp c s s1 r1.
   Proof.
     intros Hnf Hc E. pose proof (step_spec _ _ _ _ _ _ E) as (_ & _ & _ & [Hf | Hr]).
-    - exfalso. unfold Binder.step in E. rewrite Hc, Hnf in E.
+    - exfalso. unfold Binder.step in E. cbn [no_env apply_env fold_left] in E. rewrite Hc, Hnf in E.
       destruct (do_call c (if is_watch c then dp (s_watches s) else None) (s_store s)) as [st' r'].
       injection E as <- <-. destruct Hf as (_ & _ & Hx & _). simpl in Hx. lia.
     - split; [apply Hr |]. split; [apply Hr | exact Hr].
@@ -1999,13 +2023,13 @@ Section Final.
   Proof.
     induction p as [a | c k IH | k IH | m k IH | gs k IH | b k IH]; intros s Hnf Hc; cbn [Binder.exec].
     - auto.
-    - destruct (Binder.step faults dp c s) as [s1 r1] eqn:E.
+    - destruct (Binder.step faults no_env dp c s) as [s1 r1] eqn:E.
       destruct (step_nofault _ _ _ _ Hnf Hc E) as (Hc1 & Hn1 & _).
       destruct (IH r1 s1 Hnf Hc1) as (A1 & A2). split; [exact A1 | lia].
     - apply IH; auto.
-    - match goal with |- context [Binder.exec _ _ _ k ?st] => exact (IH st Hnf Hc) end.
-    - match goal with |- context [Binder.exec _ _ _ (k ?o) ?st] => exact (IH o st Hnf Hc) end.
-    - match goal with |- context [Binder.exec _ _ _ k ?st] => exact (IH st Hnf Hc) end.
+    - match goal with |- context [Binder.exec _ _ _ _ k ?st] => exact (IH st Hnf Hc) end.
+    - match goal with |- context [Binder.exec _ _ _ _ (k ?o) ?st] => exact (IH o st Hnf Hc) end.
+    - match goal with |- context [Binder.exec _ _ _ _ k ?st] => exact (IH st Hnf Hc) end.
   Qed.
 
   (** ** The deferred update without [G]: it touches only the request status and the condition *)
@@ -2033,7 +2057,7 @@ Section Final.
                 /\ bc_frame (s_store s) (s_store s1) /\ s_mem s1 = s_mem s /\ binds (s_log s1) = binds (s_log s));
       [ destruct c;
         [ exists s, false; split; [reflexivity |]; split; [apply bc_frame_refl | auto]
-        | cbn [Binder.exec]; destruct (Binder.step faults dp a s) as [s1 r1] eqn:E1; eexists s1, _;
+        | cbn [Binder.exec]; destruct (Binder.step faults no_env dp a s) as [s1 r1] eqn:E1; eexists s1, _;
           split; [reflexivity |];
           apply (step_bc0 a _ _ _ Ha I E1); intros (_ & _ & _ & Hd & _); cbn [is_watch] in Hd;
           apply do_patch_br in Hd; destruct (br (s_store s)); destruct Hd as (Hd & _); rewrite Hd;
@@ -2046,7 +2070,7 @@ Section Final.
     match goal with |- context [if ?x then _ else _] => destruct x end.
     2: { cbn [Binder.exec fst]. auto. }
     cbn [Binder.exec].
-    match goal with |- context [Binder.step _ _ ?c s1] => destruct (Binder.step faults dp c s1) as [s2 r2] eqn:E2;
+    match goal with |- context [Binder.step _ _ _ ?c s1] => destruct (Binder.step faults no_env dp c s1) as [s2 r2] eqn:E2;
       destruct (step_bc0 c _ _ _ Ha1 I E2) as (F2 & _ & Hb2) end.
     { intros (_ & _ & _ & Hd & _). cbn [is_watch] in Hd.
       destruct (do_patch_cond _ _ _ _ _ Ha1 Hd) as (Hs & _). rewrite Hs. unfold bc_frame. simpl.
@@ -2070,11 +2094,11 @@ Section Final.
   Theorem recover_unbound :
     wf_shape sc = true -> attemptable_sc sc -> init_ok init -> node_ok init = true -> Live init ->
     no_faults -> dp_ok dp ->
-    let s' := fst (exec (reconcile sc) (init_state init)) in
+    let s' := fst (exec (reconcile sc bind_result_code false) (init_state init)) in
     p_node (self (s_store s')) = 1 /\ side_ok sc (s_store s') = true /\ self_alive (s_store s') = true.
   Proof.
     intros Hwf Hatt Hok Hnode Hlive Hnf Hdp. pose proof (INV_init Hok) as HI0.
-    destruct Hok as (Ha & Hn0 & Hrs & Hp & Hn & Ho & (b & Hb & Hph)).
+    destruct Hok as (Ha & Hn0 & Hrs & Hp & Hterm & Hn & Ho & (b & Hb & Hph)).
     rewrite Hb in HI0.
     set (s0 := init_state init) in *.
     assert (Hst0 : s_store s0 = init) by reflexivity.
@@ -2085,32 +2109,33 @@ Section Final.
     destruct (Hl1 Hn1) as (Hr1 & _). rewrite Hst0 in Hr1, Hst1. cbn [do_call snd] in Hr1. rewrite Hb in Hr1. subst r1.
     destruct (b_phase b) eqn:Eph; [| contradiction |].
     all: cbn [Binder.exec].
-    all: match goal with |- context [Binder.step _ _ AGetPod ?st] => set (s2 := st) end.
+    all: match goal with |- context [Binder.step _ _ _ AGetPod ?st] => set (s2 := st) end.
     all: assert (HI2 : INV sc init (Some b) None None s2)
       by (apply (INV_set_mem sc init (Some b) None None s1 mem_shell HI1); rewrite Hst1; unfold J; auto 10).
     all: assert (Hst2 : s_store s2 = init) by exact Hst1.
     all: assert (Hc2 : s_crashed s2 = false) by exact Hc1.
-    all: destruct (Binder.step faults dp AGetPod s2) as [s3 r3] eqn:E3.
+    all: destruct (Binder.step faults no_env dp AGetPod s2) as [s3 r3] eqn:E3.
     all: destruct (ro_step faults dp sc init (Some b) None None AGetPod _ _ _ HI2 eq_refl E3) as (HI3 & Hst3 & Hm3 & _ & Hl3).
     all: destruct (step_nofault _ _ _ _ Hnf Hc2 E3) as (Hc3 & Hn3 & _).
     all: destruct (Hl3 Hn3) as (Hr3 & _); rewrite Hst2 in Hr3, Hst3; cbn [do_call snd] in Hr3; rewrite Ha in Hr3; subst r3.
     all: cbn [Binder.exec]; rewrite Hn; cbn [Nat.eqb negb]; cbn [Binder.exec].
-    all: match goal with |- context [Binder.step _ _ AGetNode ?st] => set (s4 := st) end.
+    all: match goal with |- context [Binder.step _ _ _ AGetNode ?st] => set (s4 := st) end.
     all: assert (HI4 : INV sc init (Some b) None None s4)
       by (apply (INV_set_mem sc init (Some b) None None s3 (mem_of (self init)) HI3); rewrite Hst3; unfold J;
           split; [auto | split; [intros g Hg; auto | auto]]).
     all: assert (Hst4 : s_store s4 = init) by exact Hst3.
     all: assert (Hc4 : s_crashed s4 = false) by exact Hc3.
     all: assert (HM4 : M s4) by (unfold M; rewrite Hst4; split; reflexivity).
-    all: destruct (Binder.step faults dp AGetNode s4) as [s5 r5] eqn:E5.
+    all: destruct (Binder.step faults no_env dp AGetNode s4) as [s5 r5] eqn:E5.
     all: destruct (ro_step faults dp sc init (Some b) None None AGetNode _ _ _ HI4 eq_refl E5) as (HI5 & Hst5 & Hm5 & _ & Hl5).
     all: destruct (step_nofault _ _ _ _ Hnf Hc4 E5) as (Hc5 & Hn5 & _).
     all: assert (HM5 : M s5) by (unfold M; rewrite Hst5, Hm5; exact HM4).
     all: destruct (Hl5 Hn5) as (Hr5 & _); rewrite Hst4 in Hr5, Hst5; cbn [do_call snd] in Hr5; rewrite Hnode in Hr5; subst r5.
     all: rewrite exec_bind.
-    all: pose proof (bind_prog_spec faults dp ord sc init (Some b) None None s5 HI5 HM5) as (B1 & B2 & B3).
-    all: destruct (exec_nofault (bind_prog sc) s5 Hnf Hc5) as (Hc6 & Hn6).
-    all: destruct (exec (bind_prog sc) s5) as [s6 e]; cbn [fst snd] in *.
+    all: assert (Hmu5 : m_uid (s_mem s5) = p_uid (self (s_store s5))) by (rewrite Hm5, Hst5; reflexivity).
+    all: pose proof (bind_prog_spec faults dp ord sc init (Some b) None None s5 HI5 HM5 Hmu5) as (B1 & B2 & B3).
+    all: destruct (exec_nofault (bind_prog sc bind_result_code false) s5 Hnf Hc5) as (Hc6 & Hn6).
+    all: destruct (exec (bind_prog sc bind_result_code false) s5) as [s6 e]; cbn [fst snd] in *.
     all: rewrite Hst5 in B3; specialize (B3 Hn6 Hdp Hlive Hatt); subst e.
     all: cbn [Binder.exec bind]; apply exit_bound_strong; auto.
   Qed.
@@ -2118,7 +2143,7 @@ Section Final.
   (** a request whose pod is already bound: only the request status and the PodBound condition may change *)
   Theorem already_bound :
     self_alive init = true -> p_node (self init) <> 0 ->
-    let s' := fst (exec (reconcile sc) (init_state init)) in
+    let s' := fst (exec (reconcile sc bind_result_code false) (init_state init)) in
     bc_frame init (s_store s') /\ binds (s_log s') = 0.
   Proof.
     intros Ha Hn. set (s0 := init_state init).
@@ -2142,13 +2167,13 @@ Section Final.
     assert (Hdone : forall res : nat * bool, bc_frame init (s_store (fst (exec (Ret res) s1)))
                                             /\ binds (s_log (fst (exec (Ret res) s1))) = 0).
     { intros res. cbn [Binder.exec fst]. rewrite Hst1, Hb1. split; [apply bc_frame_refl | reflexivity]. }
-    destruct r1; try apply Hdone.
+    destruct r1 as [| k1 | | | | | b | |]; try destruct k1; try apply Hdone.
     destruct (b_phase b); try apply Hdone.
     all: cbn [Binder.exec].
-    all: match goal with |- context [Binder.step _ _ AGetPod ?st] => set (s2 := st) end.
+    all: match goal with |- context [Binder.step _ _ _ AGetPod ?st] => set (s2 := st) end.
     all: assert (Hst2 : s_store s2 = init) by exact Hst1.
     all: assert (Hb2 : binds (s_log s2) = 0) by exact Hb1.
-    all: destruct (Binder.step faults dp AGetPod s2) as [s3 r3] eqn:E3.
+    all: destruct (Binder.step faults no_env dp AGetPod s2) as [s3 r3] eqn:E3.
     all: assert (Ha2 : self_alive (s_store s2) = true) by (rewrite Hst2; exact Ha).
     all: destruct (Hro AGetPod s2 s3 r3 eq_refl Ha2 E3) as (Hst3 & Hb3).
     all: rewrite Hst2 in Hst3.
@@ -2159,11 +2184,11 @@ Section Final.
           rewrite Hst3 in D1; split; [exact D1 | congruence]).
     all: destruct r3; try apply Hdef.
     all: assert (Hp : p = self init)
-      by (destruct (get_step AGetPod _ _ _ eq_refl E3) as [Hx | Hx]; [discriminate |];
+      by (destruct (get_step AGetPod _ _ _ eq_refl E3) as [(k3 & Hx) | Hx]; [discriminate |];
           rewrite Hst2 in Hx; cbn [do_call snd] in Hx; rewrite Ha in Hx; congruence).
     all: subst p; cbn [Binder.exec].
     all: apply Nat.eqb_neq in Hn; rewrite Hn; cbn [negb].
-    all: match goal with |- context [Binder.exec _ _ _ (deferred sc ?bb false) ?st] =>
+    all: match goal with |- context [Binder.exec _ _ _ _ (deferred sc ?bb false) ?st] =>
            set (sx := st);
            assert (Hsx : s_store sx = init) by exact Hst3;
            assert (Hax : self_alive (s_store sx) = true) by (rewrite Hsx; exact Ha);
@@ -2222,62 +2247,64 @@ Qed.
 
 Theorem all_or_nothing sc faults dp ord init :
   wf_shape sc = true -> init_ok init ->
-  let s := fst (run sc faults dp ord init) in
-  let res := snd (run sc faults dp ord init) in
+  let s := fst (run sc faults no_env dp ord init) in
+  let res := snd (run sc faults no_env dp ord init) in
   (bound (s_store s) = true /\ side_ok sc (s_store s) = true)
-  \/ (unbound (s_store s) = true /\ reported (s_store s) (s_crashed s) (snd res) = true
+  \/ (unbound (s_store s) = true
+      /\ reported (s_store s) (s_crashed s) (snd res) || nothing_done (s_log s) = true
       /\ (cleanup_unfaulted s = true -> clean init (s_store s) = true)).
 Proof.
   intros Hwf Hok. destruct (reconcile_master faults dp ord sc init Hwf Hok) as (HG & _ & _ & _ & Hcase).
-  unfold run. cbn zeta. destruct HG as ((Ha & _) & _).
+  unfold run, run_with. cbn zeta. destruct HG as ((Ha & _) & _).
   destruct Hcase as [(Hn & Hs) | (Hn & Hr & Hc)].
   - left. unfold bound. rewrite Ha, Hn. auto.
-  - right. unfold unbound. rewrite Ha, Hn. auto.
+  - right. unfold unbound. rewrite Ha, Hn. split; [reflexivity |]. split; [| exact Hc].
+    apply orb_true_iff. exact Hr.
 Qed.
 
 Theorem never_elsewhere sc faults dp ord init :
   wf_shape sc = true -> init_ok init ->
-  let s := fst (run sc faults dp ord init) in
+  let s := fst (run sc faults no_env dp ord init) in
   Forall (fun n => n = 0 \/ n = 1) (s_hist s) /\ binds (s_log s) <= 1
   /\ existsb is_bind_elsewhere (s_log s) = false.
 Proof.
   intros Hwf Hok. destruct (reconcile_master faults dp ord sc init Hwf Hok) as (HG & _).
-  unfold run. cbn zeta. destruct HG as (_ & H1 & H2 & H3 & H4). split; [exact H1 |]. split; [| exact H3].
+  unfold run, run_with. cbn zeta. destruct HG as (_ & H1 & H2 & H3 & H4). split; [exact H1 |]. split; [| exact H3].
   rewrite H2. destruct H4 as [-> | ->]; lia.
 Qed.
 
 Theorem noop_succeeded sc faults dp ord init b :
   br init = Some b -> b_phase b = BSucceeded ->
-  let s := fst (run sc faults dp ord init) in
+  let s := fst (run sc faults no_env dp ord init) in
   s_store s = init /\ length (s_log s) = 1 /\ binds (s_log s) = 0.
 Proof.
-  intros Hb Hph. unfold run, reconcile. cbn [exec].
-  destruct (step faults dp AGetBR (init_state init)) as [s1 r1] eqn:E.
+  intros Hb Hph. unfold run, run_with, reconcile. cbn [exec].
+  destruct (step faults no_env dp AGetBR (init_state init)) as [s1 r1] eqn:E.
   pose proof (step_spec _ _ _ _ _ _ E) as (_ & _ & _ & [Hf | Hr]).
-  - destruct Hf as (-> & Hst & _ & _ & (o & Ho & Hlog) & _). cbn [exec fst]. rewrite Hst, Hlog.
-    split; [reflexivity |]. split; [reflexivity |]. rewrite binds_cons. destruct Ho; subst; reflexivity.
+  - destruct Hf as ((k0 & ->) & Hst & _ & _ & (o & Ho & Hlog) & _). destruct k0; cbn [exec fst]; rewrite Hst, Hlog;
+      (split; [reflexivity |]; split; [reflexivity |]; rewrite binds_cons; destruct Ho; subst; reflexivity).
   - destruct Hr as (_ & _ & _ & Hd & Hlog & _). cbn [is_watch do_call init_state s_store] in Hd. rewrite Hb in Hd.
     injection Hd as Hst <-. rewrite Hph. cbn [exec fst]. rewrite <- Hst, Hlog. auto.
 Qed.
 
 Theorem noop_bound sc faults dp ord init :
   self_alive init = true -> p_node (self init) <> 0 ->
-  let s := fst (run sc faults dp ord init) in
+  let s := fst (run sc faults no_env dp ord init) in
   bc_frame init (s_store s) /\ binds (s_log s) = 0.
 Proof. intros Ha Hn. apply (already_bound faults dp ord sc init Ha Hn). Qed.
 
 Theorem recovery sc faults dp ord dp2 ord2 f init :
   wf_shape sc = true -> attemptable_sc sc -> init_ok init -> node_ok init = true -> SH init ->
   (forall k, dp2 k <> None) ->
-  let st1 := s_store (fst (run sc faults dp ord init)) in
-  let st2 := s_store (fst (run sc (fun _ => Ok) dp2 ord2 (env_annotate f st1))) in
+  let st1 := s_store (fst (run sc faults no_env dp ord init)) in
+  let st2 := s_store (fst (run sc (fun _ => Ok) no_env dp2 ord2 (env_annotate f st1))) in
   bound st2 = true /\ side_ok sc st2 = true.
 Proof.
   intros Hwf Hatt Hok Hnode Hsh Hdp.
   destruct (reconcile_master faults dp ord sc init Hwf Hok) as (HG & Hno & Hsh1 & (b1 & Hb1 & Hsucc) & Hcase).
-  unfold run. cbn zeta.
-  set (st1 := s_store (fst (exec faults dp ord (reconcile sc) (init_state init)))) in *.
-  destruct HG as ((Ha & Hn0 & Hrs & Hp & Ho) & _).
+  unfold run, run_with. cbn zeta.
+  set (st1 := s_store (fst (exec faults no_env dp ord (reconcile sc bind_result_code false) (init_state init)))) in *.
+  destruct HG as ((Ha & Hn0 & Hrs & Hp & Ho & Ht) & _).
   set (init2 := env_annotate f st1).
   destruct Hcase as [(Hn & Hs) | (Hn & _)].
   - (* already bound: the second reconcile only touches the status *)
@@ -2304,16 +2331,16 @@ Qed.
 (** * Non-vacuity: a concrete multi-fraction request *)
 Definition ex_sc : scen := mkScen true [1; 2; 3] None true true false true true.
 Definition ex_init : store :=
-  mkStore (mkPod 0 false 0 PhPending None [] None None None) true [] None None (Some (mkBR BPending 0)) true.
+  mkStore (mkPod 0 false 0 PhPending None [] None None None 1 false) true [] None None (Some (mkBR BPending 0)) true.
 Definition ex_dp (k : nat) : option nat := Some k.
 Definition ex_ord (_ : nat) : list gid := [].
-Definition ex_fail13 (k : nat) : fault := if k =? 13 then Fail else Ok.   (* the label patch of the second group *)
+Definition ex_fail13 (k : nat) : fault := if k =? 13 then Fail EInternal else Ok.   (* the label patch of the second group *)
 
 Lemma ex_nonvacuous :
   wf_shape ex_sc = true /\ attemptable_sc ex_sc /\ init_ok ex_init /\ node_ok ex_init = true /\ SH ex_init
-  /\ (let s := fst (run ex_sc (fun _ => Ok) ex_dp ex_ord ex_init) in
+  /\ (let s := fst (run ex_sc (fun _ => Ok) no_env ex_dp ex_ord ex_init) in
       bound (s_store s) = true /\ side_ok ex_sc (s_store s) = true /\ length (s_log s) = 31)
-  /\ (let s := fst (run ex_sc ex_fail13 ex_dp ex_ord ex_init) in
+  /\ (let s := fst (run ex_sc ex_fail13 no_env ex_dp ex_ord ex_init) in
       unbound (s_store s) = true /\ reported (s_store s) (s_crashed s) true = true
       /\ cleanup_unfaulted s = true /\ clean ex_init (s_store s) = true
       /\ s_mark s = Some (17, 1)).
@@ -2334,11 +2361,11 @@ Qed.
     call 12 - fails).  The reconcile returns the error, so the request is requeued. *)
 Definition ex_sc1 : scen := mkScen true [1] None false true false true true.
 Definition ex_silent (_ : nat) : option nat := None.
-Definition ex_fail12 (k : nat) : fault := if k =? 12 then Fail else Ok.
+Definition ex_fail12 (k : nat) : fault := if k =? 12 then Fail EInternal else Ok.
 
 Lemma ex_reported_literal_refuted :
-  let s := fst (run ex_sc1 ex_fail12 ex_silent ex_ord ex_init) in
-  let res := snd (run ex_sc1 ex_fail12 ex_silent ex_ord ex_init) in
+  let s := fst (run ex_sc1 ex_fail12 no_env ex_silent ex_ord ex_init) in
+  let res := snd (run ex_sc1 ex_fail12 no_env ex_silent ex_ord ex_init) in
   wf_shape ex_sc1 = true /\ unbound (s_store s) = true /\ s_crashed s = false
   /\ br (s_store s) = Some (mkBR BPending 0) /\ snd res = true.
 Proof. vm_compute. auto. Qed.
@@ -2346,10 +2373,23 @@ Proof. vm_compute. auto. Qed.
 (** "a request whose pod is already bound changes nothing": the code marks such
     a request Succeeded and writes PodBound=True. *)
 Definition ex_bound_init : store :=
-  mkStore (mkPod 0 false 1 PhPending None [] None None None) true [] None None (Some (mkBR BPending 0)) true.
+  mkStore (mkPod 0 false 1 PhPending None [] None None None 1 false) true [] None None (Some (mkBR BPending 0)) true.
 
 Lemma ex_noop_bound_literal_refuted :
-  let s := fst (run ex_sc (fun _ => Ok) ex_dp ex_ord ex_bound_init) in
+  let s := fst (run ex_sc (fun _ => Ok) no_env ex_dp ex_ord ex_bound_init) in
   br (s_store s) = Some (mkBR BSucceeded 0) /\ p_cond (self (s_store s)) = Some true
   /\ s_store s <> ex_bound_init.
 Proof. vm_compute. split; [reflexivity |]. split; [reflexivity |]. discriminate. Qed.
+
+(** when this reconcile's binding call went through (nobody else interfering), the pod is bound with its side objects *)
+Theorem bound_of_binds sc faults dp ord init :
+  wf_shape sc = true -> init_ok init ->
+  let s := fst (run sc faults no_env dp ord init) in
+  binds (s_log s) = 1 -> bound (s_store s) = true /\ side_ok sc (s_store s) = true.
+Proof.
+  intros Hwf Hok. destruct (reconcile_master faults dp ord sc init Hwf Hok) as (HG & _ & _ & _ & Hcase).
+  unfold run, run_with. cbn zeta. destruct HG as ((Ha & _) & _ & Hb & _).
+  intros H1. destruct Hcase as [(Hn & Hs) | (Hn & _)].
+  - unfold bound. rewrite Ha, Hn. auto.
+  - rewrite Hb, Hn in H1. discriminate.
+Qed.
